@@ -6,8 +6,7 @@ package zkfac
 
 //@ func (*Proof).Verify
 //@   nopanic[C05]
-//@   modifies nothing
-//@   allocates
+//@   modifies hstate(hash)
 //@   requires public.N != nil && pedok(public.Aux) && hash != nil && hash.h != nil
 
 //@ func challenge
